@@ -117,7 +117,23 @@ func runSync(o syncOpt) *syncRes {
 			if idle < 5 {
 				continue
 			}
-			if ok, dump := core.Quiescent(3, 40*time.Millisecond, nil); ok {
+			// a call that already returned is not outstanding: drain results first
+			drained := false
+			select {
+			case err := <-sd:
+				res.SendErr, res.SendDone, drained = err, true, true
+			default:
+			}
+			select {
+			case err := <-rd:
+				res.RecvErr, res.RecvDone, drained = err, true, true
+			default:
+			}
+			if drained {
+				idle = 0
+				continue
+			}
+			if ok, dump := core.Quiescent(3, 40*time.Millisecond, nil); ok && len(sd) == 0 && len(rd) == 0 {
 				res.Deadlock = true
 				res.Dump = dump
 				res.SendDoneBeforeTeardown, res.RecvDoneBeforeTeardown = res.SendDone, res.RecvDone
@@ -292,7 +308,7 @@ func checkHang(r *core.Result, res *syncRes, desc string) bool {
 		if len(frames) > 12 {
 			frames = frames[:12]
 		}
-		r.ViolateD("deadlock", map[string]any{"config": desc, "fsutil_goroutines": frames, "send_returned": res.SendDoneBeforeTeardown, "recv_returned": res.RecvDoneBeforeTeardown},
+		r.ViolateD("deadlock", map[string]any{"config": desc, "fsutil_goroutines": frames, "all_goroutines": tailStr(res.Dump, 20000), "send_returned": res.SendDoneBeforeTeardown, "recv_returned": res.RecvDoneBeforeTeardown},
 			"%s: the session deadlocked: no stream progress and every goroutine parked (send returned=%v, receive returned=%v before the harness tore the stream down)", desc, res.SendDoneBeforeTeardown, res.RecvDoneBeforeTeardown)
 		return true
 	}
